@@ -125,8 +125,9 @@ class TargetCase:
     """adapter so that pyvc targets can be run by symreal.pool.run_catalogue"""
     expect = "pyvc"
 
-    def __init__(self, target):
+    def __init__(self, target, allow_outside=False):
         self.target = target
+        self.allow_outside = allow_outside
         self.name = target.name
         self.key = target.key
         self.functions = ("synapgrad." + target.relpath[:-3].replace("/", ".").replace("synapgrad.", "", 1) + "." + target.qualname.split("@")[0],)
